@@ -88,11 +88,17 @@ def go_build(kind, pkg, out, race=False, tags="verif", timeout=900):
 TLC_JAR_CP = "/opt/veriftools/tla/tla2tools.jar:/opt/veriftools/tla/CommunityModules-deps.jar"
 
 
+import threading
+_spec_lock = threading.Lock()
+
+
 def _spec_copy(name="spec"):
-    d = os.path.join(scratch(), name)
-    if not os.path.isdir(d):
-        shutil.copytree(SPEC, d)
-    return d
+    with _spec_lock:
+        d = os.path.join(scratch(), name)
+        if not os.path.isdir(d):
+            shutil.copytree(SPEC, d + ".tmp")
+            os.rename(d + ".tmp", d)
+        return d
 
 
 def tlc(module, cfg, workers=None, timeout=1800, env=None, extra=None, heap=None, dfs=False, tag=None):
